@@ -728,7 +728,10 @@ func (repo *GoGitRepo) StoreSignedCommit(treeHash Hash, signKey *openpgp.Entity,
 // identConfig returns the configuration of the repository with the names and e-mail addresses
 // of the author and of the committer cleaned the way git does (ident.c): without '<', '>' and
 // line feeds, which would make the author and committer lines of a commit unparsable
-// (git fsck: badDate, badName, badEmail).
+// (git fsck: badDate, badName, badEmail), and without the blanks and punctuation git strips at
+// both ends. go-git drops the spaces around a name when it decodes a commit: with a name that
+// starts or ends with a space, the commit encoded again to verify its signature is not the one
+// that has been signed.
 func (repo *GoGitRepo) identConfig() (*config.Config, error) {
 	cfg, err := repo.r.Config()
 	if err != nil {
@@ -741,6 +744,10 @@ func (repo *GoGitRepo) identConfig() (*config.Config, error) {
 			}
 			return r
 		}, *s)
+		*s = strings.TrimFunc(*s, func(r rune) bool {
+			// "crud" of git's ident.c
+			return r <= 32 || strings.ContainsRune(".,:;<>\"\\'", r)
+		})
 	}
 	return cfg, nil
 }
